@@ -393,6 +393,13 @@ func (db *DB) Merge() error {
 			return err
 		}
 
+		if len(pendingMergeEntries) == 0 && int64(pendingMergeFId) == db.MaxFileID {
+			// nothing was rewritten, so this file is still the active segment:
+			// later commits are appended to it and it must not be unlinked
+			f.rwManager.Close()
+			continue
+		}
+
 		if err := vfs("remove", db.getDataPath(int64(pendingMergeFId)), 0, nil); err != nil {
 			db.isMerging = false
 			f.rwManager.Close()
